@@ -55,7 +55,7 @@ func NewModifier(p Params) Modifier {
 		modified: p.Modified,
 		provided: p.Provided,
 		fset:     p.Fset,
-		position: p.Fset.Position(p.Modified.Pos()),
+		position: p.Fset.PositionFor(p.Modified.Pos(), false /* adjusted */),
 		info:     p.Info,
 	}
 }
